@@ -121,6 +121,11 @@ def run(ctx):
         elif v == 8:
             excuse(c, {"reduce_error_discarded"} if any(p["op"] == "sum" for p in ex["projs"]) else set(),
                    "GROUP BY returned a table although the requested sum is undefined")
+    # size sweep of Table.Reduce (row counts around powers of two and typical thresholds), against the spec in Python
+    sweep = T.htable(["-mode", "sweep", "-n", 2 if ctx.tier == "thorough" else 1, "-seed", ctx.seed], timeout=1800)
+    ctx.cov["size_sweep"] = T.check_sweep(ctx, sweep, ("reduce",))
+    ctx.cov["size_sweep_note"] = ("tables of the sweep are compared with the spec in Python (one row per distinct key in key order, count, "
+                                  "wrapped sum); they are not evaluated by the Gallina model inside Coq (quick: up to 5003 rows, thorough: up to 65537)")
     T.replay_findings(ctx, "C11", "replay11")
     seen = set()
     for c, v in zip(reds, rc):
@@ -143,7 +148,8 @@ def run(ctx):
         ctx.violation({"kind": "generator unhealthy: more than 30% empty inputs", "empties": empties})
     ctx.assumptions += ["the spec groups rows by the printed forms of the grouping cells; a disagreement with the spec must be accepted "
                         "by the classifier of an OPEN finding (mixed kinds, float precision, trimmed strings), otherwise it is a violation"]
-
+    ctx.assumptions += ["_partial domain D11 (GroupProofs.d11): every grouping column holds one cell kind AND two rows have the same printed group id "
+                        "exactly when rowLess cannot tell them apart; evaluated per case inside Coq (verdict 1 = inside D11)"]
 
 def search(ctx, broken):
     try:
